@@ -660,6 +660,9 @@ def check_guards(run, A):
         entries.append(f'{D}{mod}::{cname}Trainer.fit')
     entries += ['pb_bss.initializer.iid::uniform_normalized', 'pb_bss.initializer.deterministic::flag',
                 'pb_bss.initializer.iid::dirichlet', 'pb_bss.initializer.iid::one_hot']
+    # the component trainers are public entry points of their own (fixed-point iteration of the cACG starting from ones, ...)
+    entries += [f'{D}complex_angular_central_gaussian::ComplexAngularCentralGaussianTrainer.fit', f'{D}complex_watson::ComplexWatsonTrainer.fit',
+                f'{D}von_mises_fisher::VonMisesFisherTrainer.fit', f'{D}gaussian::GaussianTrainer.fit']
     seen = {}
     for q in entries:
         fn = prog.func(q)
